@@ -209,7 +209,9 @@ func (s *TxStore) insertMemPoolTx(tx mwdb.DBTransaction, rec *TxRecord) error {
 
 func (s *TxStore) insertMinedTx(tx mwdb.DBTransaction, allBalances map[string]massutil.Amount, rec *TxRecord, block *BlockMeta) error {
 	nsTxRecords := tx.FetchBucket(s.bucketMeta.nsTxRecords)
-	if _, v := existsTxRecord(nsTxRecords, &rec.Hash, block); v != nil {
+	if _, v, err := existsTxRecord(nsTxRecords, &rec.Hash, block); err != nil {
+		return err
+	} else if v != nil {
 		return nil
 	}
 	var err error
@@ -280,7 +282,10 @@ func (s *TxStore) insertMinedTxForImporting(tx mwdb.DBTransaction,
 	nsBlocks := tx.FetchBucket(s.bucketMeta.nsBlocks)
 	nsTxRecords := tx.FetchBucket(s.bucketMeta.nsTxRecords)
 
-	_, v := existsTxRecord(nsTxRecords, &rec.Hash, block)
+	_, v, err := existsTxRecord(nsTxRecords, &rec.Hash, block)
+	if err != nil {
+		return err
+	}
 	exists := v != nil
 
 	blockKey, blockValue, err := existsBlockRecord(nsBlocks, block.Height)
@@ -362,7 +367,10 @@ func (s *TxStore) removeDoubleSpends(tx mwdb.DBTransaction, rec *TxRecord) error
 		prevOut := &rec.MsgTx.TxIn[rel.Index].PreviousOutPoint
 		prevOutKey := canonicalOutPoint(&prevOut.Hash, prevOut.Index)
 
-		doubleSpendHashes := fetchUnminedInputSpendTxHashes(nsUnminedInputs, prevOutKey)
+		doubleSpendHashes, err := fetchUnminedInputSpendTxHashes(nsUnminedInputs, prevOutKey)
+		if err != nil {
+			return err
+		}
 		for _, doubleSpendHash := range doubleSpendHashes {
 			doubleSpendVal, err := existsRawUnmined(nsUnmined, doubleSpendHash[:])
 			if err != nil {
@@ -403,7 +411,10 @@ func (s *TxStore) removeConflict(tx mwdb.DBTransaction, rec *TxRecord) error {
 
 	for i := range rec.MsgTx.TxOut {
 		k := canonicalOutPoint(&rec.Hash, uint32(i))
-		spenderHashes := fetchUnminedInputSpendTxHashes(nsUnminedInputs, k)
+		spenderHashes, err := fetchUnminedInputSpendTxHashes(nsUnminedInputs, k)
+		if err != nil {
+			return err
+		}
 		for _, spenderHash := range spenderHashes {
 			spenderVal, err := existsRawUnmined(nsUnmined, spenderHash[:])
 			if err != nil {
@@ -506,7 +517,10 @@ func (s *TxStore) ExistsTx(tx mwdb.ReadTransaction, out *wire.OutPoint) (mtx *wi
 	}
 
 	if found {
-		_, recVal := existsTxRecord(nsTxRecords, &cred.outPoint.Hash, cred.block)
+		_, recVal, err := existsTxRecord(nsTxRecords, &cred.outPoint.Hash, cred.block)
+		if err != nil {
+			return nil, nil, err
+		}
 		_, txLoc, err := readTxRecordLoc(recVal)
 		if err != nil {
 			return nil, nil, err
@@ -689,7 +703,10 @@ func (s *TxStore) Rollback(tx mwdb.DBTransaction, height uint64) error {
 		for i := len(rbBlock.transactions) - 1; i >= 0; i-- {
 			txHash := &rbBlock.transactions[i]
 
-			recKey, recVal := existsTxRecord(nsTxRecords, txHash, &rbBlock.BlockMeta)
+			recKey, recVal, err := existsTxRecord(nsTxRecords, txHash, &rbBlock.BlockMeta)
+			if err != nil {
+				return err
+			}
 			blkLoc, txLoc, err := readTxRecordLoc(recVal)
 			if err != nil {
 				logging.CPrint(logging.WARN, "readTxRecordLoc failed",
@@ -1086,7 +1103,10 @@ func (s *TxStore) Rollback(tx mwdb.DBTransaction, height uint64) error {
 	// remove coinbase credits
 	for _, op := range coinBaseCredits {
 		opKey := canonicalOutPoint(&op.Hash, op.Index)
-		unminedSpendTxHashKeys := fetchUnminedInputSpendTxHashes(nsUnminedInputs, opKey)
+		unminedSpendTxHashKeys, err := fetchUnminedInputSpendTxHashes(nsUnminedInputs, opKey)
+		if err != nil {
+			return err
+		}
 		for _, unminedSpendTxHashKey := range unminedSpendTxHashKeys {
 			unminedVal, err := existsRawUnmined(nsUnmined, unminedSpendTxHashKey[:])
 			if err != nil {
